@@ -2,11 +2,14 @@ package scen
 
 import (
 	"fmt"
+	"strings"
 	"time"
 
 	"simh/codec"
 	"simh/env"
 	"simh/sim"
+
+	authconfig "github.com/bolkedebruin/rdpgw/cmd/auth/config"
 )
 
 // TunWorld is the common setup of the tunnel family: stub IdP, a booted gateway, N planned
@@ -16,6 +19,10 @@ type TunWorld struct {
 	MC    ModelCfg
 	Plans []*TunPlan
 	Tuns  []*Tun
+	// NTLM: the gateway runs with authentication [ntlm] and token auth off; every tunnel
+	// connection authenticates through the auth node first
+	NTLM bool
+	Node *env.AuthNode
 }
 
 type TunOpts struct {
@@ -24,6 +31,35 @@ type TunOpts struct {
 	Cfg        *env.GWConfig
 	ExtraHosts []string
 	StreamIn   bool
+	// IDFormat selects how connection identifiers look: 0 braced GUIDs (what Windows clients
+	// send), 1 plain GUIDs, 2 short opaque tokens, 3 long opaque strings, 4 identifiers that
+	// differ only in case or in one trailing character
+	IDFormat int
+}
+
+// connID builds the i-th distinct connection identifier of a run.
+func connID(c *Ctx, format, i int) string {
+	seed := c.Res.Seed & 0xffffffff
+	switch format {
+	case 1:
+		return fmt.Sprintf("%08x-0000-4000-8000-%012x", seed, i)
+	case 2:
+		return fmt.Sprintf("c%d-%d", seed%1000, i)
+	case 3:
+		return fmt.Sprintf("session/%d/%s/%d", seed, "opaque-connection-identifier-that-is-not-a-guid", i)
+	case 4:
+		base := fmt.Sprintf("{%08X-0000-4000-8000-ABCDEF%06X}", seed, i/2)
+		if i%2 == 1 {
+			return strings.ToLower(base)
+		}
+		return base
+	}
+	return fmt.Sprintf("{%08X-0000-4000-8000-%012X}", seed, i)
+}
+
+var _ = strings.ToLower
+
+type unusedTunOpts struct {
 }
 
 // PlanTunnels draws N tunnel skeletons (names, addresses, hosts) and the configuration's
@@ -41,7 +77,7 @@ func PlanTunnels(c *Ctx, o TunOpts) *TunWorld {
 			Name:        name,
 			Transport:   tr,
 			From:        fmt.Sprintf("10.1.%d.%d:%d", i/200, 10+i%200, 40000+i),
-			ConnID:      fmt.Sprintf("{%08X-0000-4000-8000-%012X}", c.Res.Seed&0xffffffff, i),
+			ConnID:      connID(c, o.IDFormat, i),
 			User:        fmt.Sprintf("user%d", i),
 			AllowedHost: fmt.Sprintf("h-%s.test:3389", name),
 			DeniedHost:  fmt.Sprintf("x-%s.test:3389", name),
@@ -58,6 +94,18 @@ func PlanTunnels(c *Ctx, o TunOpts) *TunWorld {
 // BootTun boots the IdP and the gateway for a planned tunnel world.
 func BootTun(c *Ctx, tw *TunWorld, streamIn bool) bool {
 	c.W.NewIdP()
+	if tw.NTLM {
+		tw.Cfg.Authentication = []string{"ntlm"}
+		tw.Cfg.TokenAuth = env.Bool(false)
+		tw.Cfg.AuthSocket = "/sim/auth.sock"
+		tw.Cfg.AuthTimeout = 5
+		var users []authconfig.UserConfig
+		for _, p := range tw.Plans {
+			p.NTLMUser, p.NTLMPass = p.User, "pw-of-"+p.User
+			users = append(users, authconfig.UserConfig{Username: p.User, Password: p.NTLMPass})
+		}
+		tw.Node = c.W.StartAuthNode("/sim/auth.sock", users, nil)
+	}
 	g := c.W.Boot(tw.Cfg)
 	if g.Exited || g.Server == nil {
 		c.Infra("gateway did not start: exit=%v code=%d line=%q", g.Exited, g.ExitCode, g.ExitLine)
